@@ -77,6 +77,30 @@ def documents(rng, n, depth=4, deep_every=25, f32=False):
                 out.append(("yaml", back[0], t))
         except Exception:
             continue
+    # strings that another format (or another type of the same format) would read differently if they lost their quotes,
+    # and strings holding characters that are special only at the start of a stream (U+FEFF)
+    look = ["2021-01-02T03:04:05Z", "1979-05-27T07:32:00-08:00", "2021-01-02T03:04:05.678+00:00", "1979-05-27", "07:32:00",
+            "2021-01-02 03:04:05Z", "true", "false", "null", "~", "", "1", "-0", "1.5", "1e3", ".inf", "-.INF", ".nan", "0x1F", "0o17",
+            "1_000", "+1", "yes", "no", "on", "off", "NaN", "Infinity", "inf", "nan", "[1]", "{a: 1}", "# c", "a: b", "- x",
+            "a\ufeffb", "ab\ufeff", " lead", "trail ", "\u00e9", "\U0001f600", "\u2028", "\x7f", "\x85"]
+    for fmt in FORMATS:
+        for v in ({"strs": look, "nested": [{"t": s} for s in look[:8]]}, {"keys": {s: i for i, s in enumerate(look)}}):
+            try:
+                if not gen.representable(v, fmt):
+                    continue
+                for t in (gen.spell_canonical(v, fmt), gen.spell(v, fmt, rng)):
+                    back = gen.read_documents(t, fmt)
+                    if len(back) == 1 and gen.values_equal(back[0], v):
+                        out.append((fmt, v, t))
+            except Exception:
+                continue
+    for t in ('k: "a\ufeffb"\n"x\ufeffy": ["p\ufeff", \'q\ufeffr\']\n'.encode(), '- plain\ufeffword\n- |\n  block\ufefftext\n'.encode()):
+        try:
+            back = gen.read_documents(t, "yaml")
+            if len(back) == 1:
+                out.append(("yaml", back[0], t))
+        except Exception:
+            continue
     # collections longer than any 16-bit length field or pre-allocation cap
     for fmt in ("msgpack", "json"):
         for v in ({"arr": [i % 10 for i in range(40000)]}, {"m": {"k%d" % i: i % 3 for i in range(33000)}}):
